@@ -11,7 +11,7 @@ VARIABLES model, acts, inj, expect
 vars == <<model, acts, inj, expect>>
 
 Kinds == { "none", "integrator", "cone", "wind", "fluidshape", "impratio", "transmission", "gaintype", "biastype",
-           "ref", "ball", "ball_stacked", "ball_range", "free_stiffness", "solmix", "priority", "cylinder",
+           "jointinparent", "ref", "ball", "ball_stacked", "ball_range", "free_stiffness", "solmix", "priority", "cylinder",
            "cylinder_affinity_only", "anchors" }
 
 \* actuated joints: every (link, joint index) with joints
@@ -30,7 +30,7 @@ Sites(m, a, k) ==
     [] k \in {"solmix", "priority"} -> IF Cardinality(GeomSites(m)) >= 2 THEN GeomSites(m) ELSE {}
     [] k \in {"transmission"} -> 1..NLinks(m)
     [] k \in {"gaintype", "biastype"} -> 1..Len(a)
-    [] k = "ref" -> JointSites(m)
+    [] k \in {"ref", "jointinparent"} -> JointSites(m)     \* jointinparent: an extra actuator with that transmission on the joint
     [] k \in {"ball", "ball_range"} -> 1..NLinks(m)              \* the link's joints are replaced by one ball joint
     [] k = "ball_stacked" -> JointedLinks(m)                      \* a ball joint added to the stack
     [] k = "free_stiffness" -> FreeSites(m)
